@@ -1,20 +1,20 @@
 SPECIFICATION Spec
 CONSTANTS
   Node = {n1, n2, n3}
-  MaxTerm = 3
-  MaxLog = 3
+  MaxTerm = 2
+  MaxLog = 4
   NonCmdKinds = {}
   WarmStart = FALSE
-  MaxRestarts = 0
+  MaxRestarts = 1
   UpgradeStrong = TRUE
   VerifyQuorum = TRUE
-  RecheckTerm = FALSE
+  RecheckTerm = TRUE
   StrongThroughLog = TRUE
   SignalConfig = TRUE
   SignalBarrier = TRUE
-  MaxSnaps = 0
+  MaxSnaps = 1
   SnapAtApplied = TRUE
-  InstallReplacesDb = TRUE
+  InstallReplacesDb = FALSE
   SignalRestore = TRUE
 SYMMETRY Sym
-INVARIANTS ReadLin
+INVARIANTS StateMachineSafety OneLeaderPerTerm ReadLin NoStuckRead ServedAfterProtocol DbIsLogPrefix SnapshotIsLogPrefix ReadSeesAcked
